@@ -1,6 +1,10 @@
 package srvworld
 
-import "testing"
+import (
+	"testing"
+
+	"github.com/pion/turn/v5/internal/zzverif/vkit"
+)
 
 func TestC02(t *testing.T) {
 	runProp(t, &propSpec{
@@ -54,6 +58,24 @@ func TestC05(t *testing.T) {
 
 			return false
 		},
+		sweeps: func(r *vkit.Run) []*Script {
+			// every payload length 0..1700 x direction x encapsulation on one allocation
+			var out []*Script
+			parts := max(r.NShards, 1)
+			sc := &Script{Cfg: Config{DenyClient: -1, Clients: []int{0}}}
+			sc.Steps = append(sc.Steps, Step{Op: "Allocate", Life: -1}, Step{Op: "CreatePermission", P: []int{0}, Life: -1}, Step{Op: "ChannelBind", P: []int{2}, Ch: 0, Life: -1})
+			for n := r.Shard; n <= 1700; n += parts {
+				seed := uint64(n)*3 + 1
+				sc.Steps = append(sc.Steps,
+					Step{Op: "Send", P: []int{0}, N: n, Seed: seed, Life: -1},
+					Step{Op: "ChannelData", Ch: 0, N: n, Seed: seed + 1, Life: -1, Pad: map[bool]string{true: "none", false: ""}[n%2 == 1]},
+					Step{Op: "PeerData", P: []int{0}, N: n, Seed: seed + 2, Life: -1},
+					Step{Op: "PeerData", P: []int{2}, N: n, Seed: seed + 3, Life: -1})
+			}
+			out = append(out, sc)
+
+			return out
+		},
 		assume: []string{"client->server datagrams of wire length >= InboundMTU may be dropped and shorter ones must be processed; peer->relay datagrams up to 1500 bytes must be relayed, longer ones may be dropped but never altered"},
 	})
 }
@@ -96,6 +118,44 @@ func TestC08(t *testing.T) {
 		},
 		nontrivial: func(st *Stats, _ *Script) bool {
 			return has(st, "chan-bound") && (has(st, "chan-conflict-number") || has(st, "chan-conflict-peer") || has(st, "chan-out-of-range"))
+		},
+		sweeps: func(r *vkit.Run) []*Script {
+			// ChannelBind of literal numbers on a peer that is free again (bindings expire after 5 s):
+			// thorough = all 65536 numbers, quick = 64 around each class edge + a stride through the rest
+			var nums []int
+			if r.Thorough() {
+				for n := r.Shard; n < 65536; n += max(r.NShards, 1) {
+					nums = append(nums, n)
+				}
+			} else if r.Shard == 0 {
+				for _, base := range []int{0, 0x3FC0, 0x7FC0, 0xFFC0} {
+					for k := 0; k < 128 && base+k < 65536; k++ {
+						nums = append(nums, base+k)
+					}
+				}
+				for n := 257; n < 65536; n += 641 {
+					nums = append(nums, n)
+				}
+			}
+			var out []*Script
+			for len(nums) > 0 {
+				k := min(len(nums), 1500)
+				sc := &Script{Cfg: Config{DenyClient: -1, Clients: []int{0}, AllocLifetimeS: 7200, PermTimeoutS: 5, ChanTimeoutS: 5}}
+				sc.Steps = append(sc.Steps, Step{Op: "Allocate", Life: -1})
+				for _, n := range nums[:k] {
+					sc.Steps = append(sc.Steps, Step{Op: "ChannelBind", P: []int{0}, Ch: 1000 + n, Life: -1})
+					if n >= 0x4000 && n <= 0x7FFF {
+						sc.Steps = append(sc.Steps, Step{Op: "PeerData", P: []int{0}, N: 3, Seed: uint64(n), Life: -1}, Step{Op: "Sleep", N: 6, Life: -1})
+					}
+					if len(sc.Steps)%400 == 0 {
+						sc.Steps = append(sc.Steps, Step{Op: "Refresh", Life: -1})
+					}
+				}
+				nums = nums[k:]
+				out = append(out, sc)
+			}
+
+			return out
 		},
 	})
 }
